@@ -41,7 +41,11 @@ pub fn all_action_types(configuration: &Configuration) -> Vec<ActionEnum> {
         ActionEnum::SubSectionsExtract(SubSectionsExtract {}),
     ];
 
-    actions.extend(configuration.actions.iter().map(|(identifier, action)| {
+    // the configured actions live in a hash map: offered in the order of their identifiers
+    let mut configured = configuration.actions.iter().collect::<Vec<_>>();
+    configured.sort_by(|a, b| a.0.cmp(b.0));
+
+    actions.extend(configured.into_iter().map(|(identifier, action)| {
         let action = ActionEnum::UpdateNodeAction(UpdateBlockAction {
             title: action.title.clone(),
             identifier: identifier.clone(),
